@@ -23,8 +23,13 @@ import (
 )
 
 func c01Clone(p *ProofD) *ProofD {
-	return &ProofD{C: vfCopy(p.C), A: vfCopy(p.A), EResponse: vfCopy(p.EResponse), VResponse: vfCopy(p.VResponse),
+	q := &ProofD{C: vfCopy(p.C), A: vfCopy(p.A), EResponse: vfCopy(p.EResponse), VResponse: vfCopy(p.VResponse),
 		AResponses: vfCopyMap(p.AResponses), ADisclosed: vfCopyMap(p.ADisclosed)}
+	if p.NonRevocationProof != nil {
+		// the non-revocation part is not altered by this check: a wire copy keeps it independent
+		q.NonRevocationProof = vsCloneProof(&ProofD{C: p.C, A: p.A, EResponse: p.EResponse, VResponse: p.VResponse, AResponses: map[int]*big.Int{}, ADisclosed: map[int]*big.Int{}, NonRevocationProof: p.NonRevocationProof}).(*ProofD).NonRevocationProof
+	}
+	return q
 }
 
 type c01Alt struct {
@@ -225,7 +230,7 @@ func c01Shapes(pk *gabikeys.PublicKey, maxN int) []c01Shape {
 	return out
 }
 
-func c01Run(t *testing.T, sub, keyName string, maxN int, withAlterations bool, maxDev int, qb, tb time.Duration) {
+func c01Run(t *testing.T, sub, keyName string, maxN int, withAlterations bool, maxDev int, nonrev bool, qb, tb time.Duration) {
 	r := vkit.Start(t, "C01", sub, qb, tb)
 	defer r.Finish()
 	r.Rule = "credential shapes (n attrs; tags / boundary sizes incl. hashed / all-equal) x every disclosure subset; per honest proof every alteration of the menu (leaf arithmetic, swaps, key move/copy/delete/re-key, split(x), compensated pairs, k*ord shifts at both range ends); honest proofs also under <=1 environment-answer deviation; non-trivial = distinct (shape,subset,alteration) whose altered proof differs from the honest one; oracle: accepted => disjoint index sets, reported values = signed values, responses in protocol range, reference verifier agrees; honest => accepted"
@@ -237,7 +242,6 @@ func c01Run(t *testing.T, sub, keyName string, maxN int, withAlterations bool, m
 	r.Bounds["env_deviations"] = maxDev
 	secret := vfTag("secret-" + keyName)
 	for _, sh := range c01Shapes(pk, maxN) {
-		attrs := append([]*big.Int{secret}, sh.attrs...)
 		for _, D := range vfSubsets(1, len(sh.attrs)) {
 			_, mine := r.Next()
 			if !mine {
@@ -247,10 +251,17 @@ func c01Run(t *testing.T, sub, keyName string, maxN int, withAlterations bool, m
 				return
 			}
 			env.Reset()
-			cred := vfMint(k, secret, sh.attrs, len(sh.attrs))
+			mint := func() *Credential {
+				if nonrev {
+					return vfMintRev(k, secret, sh.attrs, len(sh.attrs))
+				}
+				return vfMint(k, secret, sh.attrs, len(sh.attrs))
+			}
+			cred := mint()
+			attrs := cred.Attributes
 			mintDraws := env.Draws()
 			var honest *ProofD
-			build := func() (*ProofD, error) { return cred.CreateDisclosureProof(D, nil, false, vfContext, vfNonce) }
+			build := func() (*ProofD, error) { return cred.CreateDisclosureProof(D, nil, nonrev, vfContext, vfNonce) }
 			// honest proofs under environment deviations
 			runs, complete := env.Explore(maxDev, []venv.Answer{venv.Min, venv.Max, venv.Short}, func(devs []venv.Deviation) bool {
 				// re-mint deterministically so that draw numbering is stable; deviations target proof draws only
@@ -259,23 +270,30 @@ func c01Run(t *testing.T, sub, keyName string, maxN int, withAlterations bool, m
 						return true
 					}
 				}
-				c2 := vfMint(k, secret, sh.attrs, len(sh.attrs))
+				c2 := cred
+				if !nonrev {
+					c2 = vfMint(k, secret, sh.attrs, len(sh.attrs))
+				}
 				var p *ProofD
 				var err error
-				pan, msg := vkit.Guard(func() { p, err = c2.CreateDisclosureProof(D, nil, false, vfContext, vfNonce) })
+				pan, msg := vkit.Guard(func() { p, err = c2.CreateDisclosureProof(D, nil, nonrev, vfContext, vfNonce) })
 				r.Eval()
 				caseID := map[string]any{"key": keyName, "shape": sh.name, "disclosed": D, "env": fmt.Sprint(devs)}
 				if pan || err != nil {
 					r.Violate("C01|honest-proof-not-created", fmt.Sprintf("panic=%v %s err=%v", pan, msg, err), caseID)
 					return true
 				}
-				ok1 := p.Verify(pk, vfContext, vfNonce, false)
-				ok2 := ProofList{p}.Verify([]*gabikeys.PublicKey{pk}, vfContext, vfNonce, false, nil)
+				if p.VResponse.Sign() < 0 || p.EResponse.Sign() < 0 {
+					r.Count("negative response under forced extreme (2^-80 event by design)", 1)
+					return true
+				}
+				ok1 := c01Clone(p).Verify(pk, vfContext, vfNonce, false)
+				ok2 := ProofList{c01Clone(p)}.Verify([]*gabikeys.PublicKey{pk}, vfContext, vfNonce, false, nil)
 				r.Nontrivial(fmt.Sprintf("honest|%s|%v|%v", sh.name, D, devs))
 				if !ok1 || !ok2 {
 					r.Violate("C01|honest-proof-rejected|env="+c01DevClass(devs), fmt.Sprintf("honest proof rejected (ProofD.Verify=%v ProofList.Verify=%v) under %v", ok1, ok2, devs), caseID)
 				}
-				if rok, why := refVerifyPlainD(pk, p, vfContext, vfNonce, false); !rok && ok1 {
+				if rok, why := refVerifyPlainD(pk, p, vfContext, vfNonce, false); !nonrev && !rok && ok1 {
 					r.Violate("C01|impl-accepts-ref-rejects|honest|"+why, "reference verifier rejects an honest accepted proof: "+why, caseID)
 				}
 				c01Judge(r, pk, attrs, p, "honest", ok1, caseID)
@@ -313,7 +331,7 @@ func c01Run(t *testing.T, sub, keyName string, maxN int, withAlterations bool, m
 				}
 				acc := ok1 || ok2
 				c01Judge(r, pk, attrs, p, alt.class, acc, caseID)
-				if acc {
+				if acc && !nonrev {
 					if rok, why := refVerifyPlainD(pk, p, vfContext, vfNonce, false); !rok {
 						r.Violate("C01|impl-accepts-ref-rejects|"+alt.class+"|"+why, "accepted by the implementation, rejected by the reference verifier: "+why+" ("+alt.desc+")", caseID)
 					}
@@ -335,13 +353,22 @@ func c01DevClass(devs []venv.Deviation) string {
 }
 
 func TestVerifC01Toy(t *testing.T) {
-	c01Run(t, "toy", "toyA", vkit.Pick(4, 6), true, 1, 240*time.Second, 1200*time.Second)
+	c01Run(t, "toy", "toyA", vkit.Pick(4, 6), true, 1, false, 240*time.Second, 1200*time.Second)
 }
 
 func TestVerifC01K1024(t *testing.T) {
-	c01Run(t, "k1024", "k1024a", vkit.Pick(2, 3), true, vkit.Pick(0, 1), 240*time.Second, 1200*time.Second)
+	c01Run(t, "k1024", "k1024a", vkit.Pick(2, 3), true, vkit.Pick(0, 1), false, 240*time.Second, 1200*time.Second)
 }
 
 func TestVerifC01K2048(t *testing.T) {
-	c01Run(t, "k2048", "k2048", vkit.Pick(1, 2), true, 0, 240*time.Second, 1200*time.Second)
+	c01Run(t, "k2048", "k2048", vkit.Pick(1, 2), true, 0, false, 240*time.Second, 1200*time.Second)
+}
+
+// proofs carrying a non-revocation part go through another branch of the verifier
+func TestVerifC01ToyNonrev(t *testing.T) {
+	c01Run(t, "toy-nonrev", "toyB", vkit.Pick(2, 4), true, vkit.Pick(0, 1), true, 240*time.Second, 1200*time.Second)
+}
+
+func TestVerifC01K1024Nonrev(t *testing.T) {
+	c01Run(t, "k1024-nonrev", "k1024a", vkit.Pick(1, 2), true, 0, true, 240*time.Second, 1200*time.Second)
 }
